@@ -109,6 +109,12 @@ def _num_cmp(a, b):
         return -1
     if math.isnan(fb):
         return 1
+    # an integer is finite however large it is (manual §Ordering: -Infinity < finite < Infinity;
+    # §Equality: an integer equals a float only if the float is finite)
+    if ai and math.isinf(fb):
+        return -1 if fb > 0 else 1
+    if bi and math.isinf(fa):
+        return 1 if fa > 0 else -1
     return (fa > fb) - (fa < fb)
 
 
